@@ -78,6 +78,7 @@ impl Vm {
     fn b(&mut self) -> BigNum {
         match self.pop() {
             V::B(b) => b,
+            V::Err(e) => panic!("library call returned Err({}) where a BigNum was required", e),
             _ => panic!("HARNESS: expected BigNum"),
         }
     }
